@@ -79,6 +79,9 @@ func runC18(c *sim.Ctx, t *testing.T) {
 			start.Bs["k!!"] = "odd"
 			start.Bs["wow!!"] = 2.0
 			start.Bs["!"] = true
+			// ... or are pattern variables (a pattern such as {"device":"?dev!"} binds one)
+			start.Bs["?dev!"] = "d1"
+			start.Bs["?!"] = 1.0
 		}
 		if c.Chance(1, 6, "wasaterror") {
 			// ... or one that has been to the error node before and still carries its diagnostics
